@@ -409,6 +409,7 @@ func (s *SegmentFile) add(msg reflect.Value) {
 	case SegmentLeaderboardEntryMsg:
 		s.SegmentLeaderboardEntry = &tmp
 	case SegmentLapMsg:
+		tmp.expandComponents()
 		s.SegmentLap = &tmp
 	case SegmentPointMsg:
 		s.SegmentPoints = append(s.SegmentPoints, &tmp)
